@@ -59,7 +59,17 @@ PROP = dict(
                    "compress_bad:noncanonical", "compress_bad:short", "compress_odd_width", "rp=0",
                    "bound=8", "bound=16", "bound=32", "bound=64", "logDeg=1", "logDeg=9", "fastpath_params", "every_length",
                    "sampled_lengths", "max>256", "ctor_rejects_bound", "id", "sis_sage_koalabear", "poseidon2_plonky3_csv",
-                   "mimc_bn254_vectors_json"] + _cold_classes(),
+                   "mimc_bn254_vectors_json",
+                   # every slice input also comes as the prefix of a larger array with a poisoned tail, per hash family
+                   "mimc:spare_capacity_poison", "perm:spare_capacity_poison", "compress:spare_capacity_poison",
+                   "sis:spare_capacity_poison", "sis:spare+fastpath+len%256!=0", "sis:spare+len_not_multiple_of_poly",
+                   "setstate:spare_capacity_poison",
+                   # independent instances: two or more hashers through the same constructor, interleaved
+                   "instances:package_ctor", "instances:new_midway", "instances:n=3", "instances:n=4",
+                   "instances:second_obtained_after_write"]
+                  + ["instances:registry:MIMC_" + c.upper().replace("-", "_") for c in _CURVES8]
+                  + ["instances:registry:POSEIDON2_" + c.upper().replace("-", "_") for c in _CURVES8 + ["koalabear", "babybear", "goldilocks"]]
+                  + _cold_classes(),
     jobs=[
         dict(name="anchors", pkg="c14", run="^TestC14_Anchors$", rapid=False),
         # regressions of the defects found (F9, F10, F61, F62), the registry, and the seed corpus of the fuzz target (no fuzzing)
@@ -71,6 +81,9 @@ PROP = dict(
         dict(name="p2perm", pkg="c14", run="^TestC14_Poseidon2_Perm$", shards=P2, checks=(1500, 20000)),
         dict(name="sis", pkg="c14", run="^TestC14_SIS$", shards=SIS, checks=(600, 8000), seeds=(2, 4)),
         dict(name="stream", pkg="c14", run="^TestC14_Stream$", shards=MIMC + P2, checks=(2000, 30000)),
+        # two to four hashers obtained through the same constructor (registry id or package constructor), interleaved calls with
+        # different messages, further instances obtained mid-way: each keeps the digest of its own stream
+        dict(name="instances", pkg="c14", run="^TestC14_Instances$", shards=MIMC + P2, checks=(300, 5000)),
         # white-box only in the sense that it must live in a binary importing nothing but hash/all: what does hash/all register?
         dict(name="all", kind="overlay", pkg="hash/all", run="^TestVerifC14_AllRegistered$", rapid=False),
         # thorough tier only: time-boxed coverage-guided native fuzzing of the Write/Sum/State byte paths, oracle inside the target
